@@ -24,14 +24,15 @@
    msg = class of the exception message of every raise in the history ("none" while nothing has raised; it is
    chosen when the first raising call starts).  The history grows call by call (script = the calls made so far):
    every idle state with a non-empty script is a complete history, so one run covers all histories of
-   1..MaxCalls calls.  PairMsgClasses bounds the message classes of histories that go on after their first call.
+   1..MaxCalls calls.  PairMsgClasses bounds the message classes of histories that go on after their first call;
+   FullPairs = FALSE restricts the calls that may *follow* another call to those with a short client script.
 
    Design switches (TRUE = intended design = the statement; FALSE reproduces the code as found):
      FixEmptyMsg  a failure record carries a non-empty error_message even when str(exc) is empty
      FixFullMsg   HTTP failure records carry the full message (as found: cut at 500 characters)           *)
 EXTENDS Naturals, Sequences, FiniteSets, TLC
 
-CONSTANTS MaxCalls, MaxTicks, ProdLen, Transports, MsgClasses, PairMsgClasses, FixEmptyMsg, FixFullMsg
+CONSTANTS MaxCalls, MaxTicks, ProdLen, Transports, MsgClasses, PairMsgClasses, FullPairs, FixEmptyMsg, FixFullMsg
 
 \* ------------------------------------------------------------------------------------------ histories
 RECURSIVE Ticks(_)
@@ -48,6 +49,8 @@ DescsOf(kinds) == UNION {{[k |-> k, site |-> s, ops |-> o] : s \in SitesFor(k), 
 DescsAll == DescsOf({"u", "big", "p", "ph", "x"})          \* zero-arity: evaluated once
 DescsCap == DescsOf({"u", "big", "x"})
 CallDescs(t) == IF t = "httpcap" THEN DescsCap ELSE DescsAll
+\* calls that may follow another call: all of them (FullPairs) or those with a short client script
+ShortOps == {<<>>, <<"c">>, <<"i">>, <<"t", "c">>, <<"t", "x">>}
 Raises(c) == c.site \in {"call", "init", "p1", "p2"}
 Allowed(t) == IF t = "httpcap" THEN MsgClasses \cap {"ascii"} ELSE MsgClasses
 
@@ -164,7 +167,8 @@ Cancel ==
   /\ UNCHANGED <<tr, msg, script, ip, nsid>>
 
 StartCall(c, m) == UnaryCall(c, m) \/ StreamCall(c, m)
-Next == (MayCall /\ \E c \in CallDescs(tr) : \E m \in NextMsg(c) : StartCall(c, m)) \/ Tick \/ Close \/ Cancel
+MayFollow(c) == ip = 0 \/ FullPairs \/ c.ops \in ShortOps
+Next == (MayCall /\ \E c \in CallDescs(tr) : MayFollow(c) /\ \E m \in NextMsg(c) : StartCall(c, m)) \/ Tick \/ Close \/ Cancel
 Spec == Init /\ [][Next]_vars
 Done == pc = "idle" /\ ip >= 1        \* a complete history (every prefix of calls is one)
 
